@@ -262,11 +262,14 @@ def _highpass(draw, case):
 def _history_entry(draw, case, nr):
     """An earlier reconstruct() call on the instance that is then re-used: the main call with ONE argument changed
     (two, 1 in 4) -- what an incomplete cache key or stale per-instance state cannot survive."""
+    if draw(st.integers(0, 2)) == 0:
+        return {"set": _neutral_call(draw, case), "bs": draw(st.none() | st.integers(1, nr))}
     changes = {}
     for _ in range(2 if draw(st.integers(0, 3)) == 3 else 1):
         # arguments that only one kernel reads are changed when the main call uses that kernel
         fam = R.FAMILY[case["kernel"]]
-        what = draw(st.sampled_from(_CHANGES + (["mf_eps"] * 4 if fam == "mf" else ["flip"] * 3 if fam == "prlx" else [])))
+        extra = (["mf_eps"] * 4 if fam == "mf" else ["flip"] * 3 if fam == "prlx" else []) + (["mask"] if case["sub"] is not None else [])
+        what = draw(st.sampled_from(_CHANGES + extra))
         if what == "order":
             changes["order"] = draw(st.sampled_from([o for o in _ORDERS if o != (case["order"] or 12)]))
         elif what == "lowpass":
@@ -289,7 +292,31 @@ def _history_entry(draw, case, nr):
             changes["flip"] = not case["flip"]
         elif what == "mf_eps":
             changes["mf_eps"] = draw(st.sampled_from([e for e in _MF_EPS if e != case["mf_eps"]]))
+        elif what == "mask":
+            changes["mask"] = draw(st.sampled_from(["full", "full_explicit"]))
     return {"set": changes, "bs": draw(st.none() | st.integers(1, nr))}
+
+
+def _neutral_call(draw, case, filters=3):
+    """A "neutral" call: every optional stage of the pipeline at its identity setting -- all aberration coefficients
+    exactly 0 (or none), no sign flipping, up-sampling None/1, the full construction mask (bf_mask=None or given
+    explicitly) -- for any kernel, usually WITH a low/high-pass filter.  This is where an implementation may skip
+    stages (and hand out views of its stored data instead of copies); the calls that follow show whether anything
+    was left behind."""
+    ch = {
+        "kernel": draw(st.sampled_from(sorted(R.FAMILY))),
+        "abers": "zero",
+        "flip": False,
+        "up": draw(st.sampled_from([None, 1])),
+        "mask": draw(st.sampled_from(["full", "full", "full_explicit"])),
+    }
+    if draw(st.integers(0, filters)) != 0:
+        which = draw(st.sampled_from(["low", "high", "both"]))
+        ch["q_lowpass"] = _lowpass(draw, case) if which != "high" else None
+        ch["q_highpass"] = _highpass(draw, case) if which != "low" else None
+    elif draw(st.booleans()):
+        ch["q_lowpass"] = ch["q_highpass"] = None
+    return ch
 
 
 @st.composite
@@ -334,6 +361,25 @@ def analytic_cases(draw):
     case = draw(_common(analytic=True))
     nr = len(case["sub"]) if case["sub"] is not None else len(case["mask_px"])
     case.update(kind="analytic", kernel=draw(st.sampled_from(R.KERNELS["prlx"])), bs=draw(st.none() | st.integers(1, nr)))
+    # an earlier call on the same instance (1 in 2): a neutral call (see _neutral_call), or any kernel with the case's
+    # own aberrations / a filter / up-sampling; its result is not judged here, the analytic call that follows is
+    prior = None
+    if draw(st.booleans()):
+        if draw(st.booleans()):
+            prior = _neutral_call(draw, case)
+        else:
+            prior = {
+                "kernel": draw(st.sampled_from(sorted(R.FAMILY))),
+                "flip": draw(st.booleans()),
+                "up": draw(st.sampled_from([None, 1, 2, 3])),
+                "mask": draw(st.sampled_from(["same", "full"])),
+                "q_lowpass": _lowpass(draw, case) if draw(st.booleans()) else None,
+                "q_highpass": _highpass(draw, case) if draw(st.integers(0, 2)) == 0 else None,
+            }
+            if draw(st.integers(0, 2)) == 0:
+                prior["abers"] = draw(st.sampled_from(["half", "zero"]))
+        prior = {"set": prior, "bs": draw(st.none() | st.integers(1, nr))}
+    case["prior"] = prior
     return case
 
 
@@ -502,7 +548,7 @@ def _call_kwargs(case, changes):
     aberrations are handled by _Setup.run).  butterworth_order / matched_filter_norm_epsilon are only passed when
     given, so that the defaults are exercised too."""
     g = dict(case)
-    g.update({k: v for k, v in changes.items() if k not in ("rot", "abers")})
+    g.update({k: v for k, v in changes.items() if k not in ("rot", "abers", "mask")})
     kw = dict(
         deconvolution_kernel=g["kernel"], upsampling_factor=g.get("up"), q_lowpass=g.get("q_lowpass"),
         q_highpass=g.get("q_highpass"), parallax_flip_phase=bool(g.get("flip", True)),
@@ -512,6 +558,15 @@ def _call_kwargs(case, changes):
     if g.get("mf_eps") is not None:
         kw["matched_filter_norm_epsilon"] = float(g["mf_eps"])
     return kw
+
+
+def _is_neutral(case, ch):
+    """Zero/no aberrations, no sign flipping, up-sampling 1, full mask (see _neutral_call)."""
+    g = dict(case)
+    g.update(ch)
+    zero = ch.get("abers") == "zero" or all(float(v) == 0.0 for k, v in case["abers"] if not _is_angle(k))
+    full = ch.get("mask") in ("full", "full_explicit") or case.get("sub") is None
+    return bool(zero and full and not g.get("flip", True) and (g.get("up") or 1) == 1)
 
 
 def _new_history(case, h):
@@ -559,6 +614,9 @@ def _check_meta(ctx, case):
             classes.append("history:other_butterworth_order_same_cutoffs")
         if h["set"].get("rot") == 0.0 or h["set"].get("abers") == "zero":
             classes.append("history:override_exactly_0")
+        if _is_neutral(case, h["set"]):
+            f = "with_filter" if (_call_kwargs(case, h["set"])["q_lowpass"] or _call_kwargs(case, h["set"])["q_highpass"]) else "no_filter"
+            classes.append("history:neutral_call:%s:%s" % (R.FAMILY[h["set"].get("kernel", case["kernel"])], f))
     if case.get("order") is not None:
         classes.append("butterworth_order:%d" % case["order"])
     if any(b > S.nr for b in batches):
@@ -634,9 +692,13 @@ def _check_meta(ctx, case):
             f = 0.5 if ch["abers"] == "half" else 0.0
             habers = [(k, v if _is_angle(k) else f * v) for k, v in S.abers]
         desc = "reconstruct(%s, max_batch_size=%r)" % (", ".join("%s=%r" % kv for kv in sorted(ch.items())) or "same arguments", h.get("bs"))
+        # mask of this call: the main call's (passed explicitly), or the full construction mask (None / explicitly)
+        hsel, fsel = S.sel, sel0
+        if ch.get("mask") in ("full", "full_explicit"):
+            hsel, fsel = (None if ch["mask"] == "full" else list(range(S.n))), None
         with ctx.sut(case, desc + " on the re-used and on a fresh instance"):
-            Sh, Bh = S.run(q, dpb, S.sel, S.route, h.get("bs"), rot=hrot, abers=habers, **hkw)
-            Sf, Bf = S.run(q, S.build(q, X, "init", soft=soft, rot=hrot, abers=habers), sel0, "init", h.get("bs"), **hkw)
+            Sh, Bh = S.run(q, dpb, hsel, S.route, h.get("bs"), rot=hrot, abers=habers, **hkw)
+            Sf, Bf = S.run(q, S.build(q, X, "init", soft=soft, rot=hrot, abers=habers), fsel, "init", h.get("bs"), **hkw)
         _finite(case, "reconstruction (%s)" % hkw["deconvolution_kernel"], Sf, Bf)
         what = "%s [main call changed in: %s] on a used instance (hyper-parameters as overrides) vs on a fresh instance" % (desc, ", ".join(sorted(ch)) or "nothing")
         s_h = max(float(np.max(np.abs(Sf))), SCALE_FLOOR * natural)
@@ -763,8 +825,20 @@ def _check_analytic(ctx, case):
     ctx.record(case, bool(S.nr >= 4 and maxshift_px > 0.0), classes)
 
     want = R.shifted_sum(X[S.sel], sh_sel, S.ss, W)
+    prior = case.get("prior")
+    if prior:
+        ch = prior["set"]
+        classes_prior = "prior_call:" + ("neutral:%s:%s" % (R.FAMILY[ch["kernel"]], "with_filter" if (ch.get("q_lowpass") or ch.get("q_highpass")) else "no_filter") if _is_neutral(dict(case, flip=False, up=None), ch) else "other")
+        ctx.count(classes_prior)
     with ctx.sut(case, "from_virtual_bfs + reconstruct(parallax, parallax_flip_phase=False)"):
         dp = S.build(q, X, S.route)
+        if prior:
+            pk = _call_kwargs(dict(case, up=None, q_lowpass=None, q_highpass=None, flip=False), ch)
+            pabers = None
+            if "abers" in ch:
+                pabers = [(k, v if _is_angle(k) else (0.5 if ch["abers"] == "half" else 0.0) * v) for k, v in S.abers]
+            psel = None if (ch.get("mask") == "full" or S.sub is None) else (list(range(S.n)) if ch.get("mask") == "full_explicit" else S.sel)
+            S.run(q, dp, psel, S.route, prior.get("bs"), abers=pabers, **pk)
         _s, got = S.run(q, dp, None if S.sub is None else S.sel, S.route, case.get("bs"), deconvolution_kernel=case["kernel"], parallax_flip_phase=False)
     _finite(case, "parallax reconstruction", got)
     msg = (
